@@ -78,6 +78,14 @@ def render(program, engine_line=True):
       out.append('@Recursive(%s, %d%s);' % (name, d['depth'], extra))
     else:
       out.append('@Recursive(%s, %d);' % (name, d))
+  for p in program['preds']:
+    if p.get('limit'):
+      names = list(p['cols']) if p.get('cols') else ['col%d' % i for i in range(p['arity'])]
+      if p['kind'] == 'agg':
+        names.append('logica_value')
+      out.append('@OrderBy(%s, %s);' % (p['name'], ', '.join(
+          '"%s%s"' % (names[c], ' desc' if desc else '') for c, desc in p['limit']['order'])))
+      out.append('@Limit(%s, %d);' % (p['name'], p['limit']['n']))
   cols_of = {p['name']: p.get('cols') for p in program['preds']}
   for p in program['preds']:
     if p['kind'] == 'edb':
@@ -231,6 +239,14 @@ def gen_nonrecursive(r, n_idb=None, min_idb=1, plain_names=False):
       d['op'] = r.choice(['+=', 'Min=', 'Max='])
     preds.append(d)
     i += 1
+  # top-N predicates: @OrderBy over ALL columns (a total order, so the cut is defined) + @Limit
+  idb = [q for q in preds if q['kind'] != 'edb']
+  if idb and r.random() < 0.3:
+    for q in r.sample(idb, min(len(idb), r.choice([1, 1, 2]))):
+      ncols = q['arity'] + (1 if q['kind'] == 'agg' else 0)
+      order = list(range(ncols))
+      r.shuffle(order)
+      q['limit'] = {'n': r.choice([1, 2, 3, 5]), 'order': [[c, r.random() < 0.4] for c in order]}
   return {'preds': preds, 'ground': [], 'recursive': {}, 'attach': None, 'noise': []}
 
 
